@@ -17,6 +17,7 @@ from . import _mech as M
 LEVEL = "exploration"
 CLAUSES = ["TractionExact", "TranslationGivesZero", "BoundDisplacementExact"]
 KEY = "mechanics"
+MATCHERS = {}  # no defect found on the current tree: nothing to recognise as a known finding
 
 
 def discretize(g, mu, lam, neu, inverter, partition):
@@ -93,18 +94,20 @@ def plan(ctx):
     ctx.extra["neumann_sets_enumerated"] = sum(len(v) for v in neusets.values())
     gi = {k: i for i, k in enumerate(fam.keys)}
     recs = []
+    lame = [(m, l) for m in (1, 2) for l in (0, 1, 3)]
     for j, c in enumerate(cfgs):
         k = M.grid_key(c)
         dim = len(c["n"])
-        # quick: one pair of Lame parameters per (grid, boundary mode), rotating through the six pairs
-        if q and (c["mu"] * 7 + c["lam"] + gi[k]) % 6 != 0:
+        li = lame.index((c["mu"], c["lam"]))
+        # Lame pairs per (grid, boundary mode), rotating through the six pairs: quick one, thorough two
+        if li not in ({gi[k] % 6} if q else {gi[k] % 6, (gi[k] + 2) % 6}):
             continue
         base = dict(recipe=recipes[k], mu=c["mu"], lam=c["lam"], inverter="python", partition=None, few=q)
         if c["bc"] == "dir":
             recs.append(dict(base, neu=[]))
             continue
         sets = [s for s in neusets[k] if s]
-        chosen = M.pick(sets, 1 if q else 3, rng)
+        chosen = M.pick(sets, 1, rng)
         if dim == 2:
             # 2D: any mix is admissible - add a seeded random mix with many Neumann faces
             bf = [int(f) + 1 for f in grids[k].get_all_boundary_faces()]
@@ -118,19 +121,20 @@ def plan(ctx):
         # the same discretisations through the split path and with the other local inverter
         extra = []
         for i, r in enumerate(recs):
-            if i % 3 == 0:
+            if i % 4 == 0:
                 extra.append(dict(r, inverter="numba"))
-            if i % 3 == 1:
-                extra.append(dict(r, partition={"num_subproblems": 2 + i % 2}))
-            if i % 9 == 2:
+            if i % 4 == 2:
+                extra.append(dict(r, partition={"num_subproblems": 2 + i % 3}))
+            if i % 12 == 1:
                 extra.append(dict(r, partition={"max_memory": 4000}, inverter="numba"))
+        # larger grids, on which the sub-problems of the split path really differ from the whole grid
         for n, variant in [((5, 3), "plain"), ((4, 4), "perturbed"), ((3, 2, 2), "plain"), ((3, 2, 2), "perturbed")]:
             for kind in ("cart", "simplex"):
                 if kind == "simplex" and len(n) == 3:
                     n = (2, 2, 2)
                 rcp = M.recipe_for(kind, list(n), variant, rng)
                 g = M.build(rcp)
-                for part in ({"num_subproblems": 3}, {"max_memory": 20000 if len(n) == 2 else 400000}):
+                for part in ({"num_subproblems": 3}, {"max_memory": 3000 if len(n) == 2 else 30000}):
                     extra.append(dict(recipe=rcp, mu=2, lam=1, inverter="python", partition=part, neu=[], few=False))
                     extra.append(dict(recipe=rcp, mu=1, lam=3, inverter="numba", partition=part, few=False,
                                       neu=greedy_no_shared_edge(g, rng)[:: 2]))
